@@ -1565,6 +1565,17 @@ mainloop:
 					if errors.Is(res.err, middleware.ErrRecursionWorkLimit) {
 						return nil, res.err
 					}
+					// Every attempt's socket deadline is this request's own
+					// deadline, so when the budget runs out the exchange
+					// errors can arrive here before ctx.Done() is observed.
+					// That is this request's expiry, not an authority
+					// failure: counting it would drain `left` and hand
+					// singleflight followers, whose budgets are still live,
+					// the fallback SERVFAIL or "all authorities failed".
+					// The request-local error lets them re-enter.
+					if ctxErr := contextutil.EffectiveError(ctx); ctxErr != nil {
+						return nil, ctxErr
+					}
 					fatalErrors = append(fatalErrors, res.err)
 
 					if left > 0 && len(serversList)-1 == index {
